@@ -145,7 +145,11 @@ def mini_model(prov, req, inj, mc):
     return {'doc': doc, 'encapsulee': ['N', 'Comp'], 'file': 'M.dzn'}
 
 
-FILE_FORMS = ['Toaster.dzn.json', 'a.b/c.d.dzn', 'M.json.dzn', 'NoExtension', 'x.DZN']
+FILE_FORMS = ['Toaster.dzn.json', 'a.b/c.d.dzn', 'M.json.dzn', 'NoExtension', 'x.DZN',
+              # characters that are not [A-Za-z0-9_.]: whatever is derived from the name (file names, include guards, struct
+              # names) must not depend on the interpreter's string hashing
+              'Ger\u00e4t.dzn', 'my-model.dzn', 'My Model.dzn', '\u30e2\u30c7\u30eb.dzn', 'a+b.dzn']
+SUFFIX_FORMS = ['\u00e9', 'H\u00fclle', '_2', '-x', ' S']
 
 
 PROV_OPTS = [(['hal', 'hal2'], ['NONE', 'ALL']), (['hal', 'hal2'], ['ALL', 'NONE']),
@@ -188,6 +192,9 @@ def big_configurations():
     for form in FILE_FORMS:
         yield {'prov': ['hal', 'hal2'], 'req': ['x', 'y', 'z'], 'inj': ['inj'], 'psel': ['NONE', 'ALL'],
                'rsel': [['x', 'y'], 'REMAINING'], 'mc': False, 'fac': 'create', 'file': form}
+    for suffix in SUFFIX_FORMS:
+        yield {'prov': ['hal', 'hal2'], 'req': ['x', 'y', 'z'], 'inj': ['inj'], 'psel': ['NONE', 'ALL'],
+               'rsel': [['x', 'y'], 'REMAINING'], 'mc': False, 'fac': 'create', 'suffix': suffix}
 
 
 def mk_select(sel, reverse=False, controlled=True):
@@ -216,7 +223,8 @@ def run_build(conf, reverse=False, controlled=True):
                     requires=PortsSemanticsCfg(sts=mk_select(conf['rsel'][0], reverse, controlled),
                                                mts=mk_select(conf['rsel'][1], reverse, controlled)),
                     multiclient=mcfg)
-    cfg = B.mk_configuration(model, {'fac': conf['fac'], 'copyright': '(c) x', 'creator': 'me'}, fct, pcfg)
+    cfg = B.mk_configuration(model, {'fac': conf['fac'], 'copyright': '(c) x', 'creator': 'me',
+                                     'suffix': conf.get('suffix', 'Shell')}, fct, pcfg)
     res = Builder().build(cfg)
     return [(f.filename, f.contents, f.hash) for f in res.files]
 
